@@ -56,6 +56,17 @@ TVSaveLoad == /\ Ev.a = "saveload"
                      expect == val  got == ValsOf(Ev.loaded) IN
                  Step(Fail("SaveLoadSucceeds", Ev.ret) \cup SavedFails([expect EXCEPT !.i[verb] = got.i[verb]], got)
                       \cup ValsFails(val, ValsOf(Ev.vals)) \cup LPFails, val)
+\* C13: a settings file with arbitrary content.  Whatever loadSettingsFile() makes of it, afterwards every parameter holds a
+\* value of its range (the values themselves are taken from the trace: the content of the file is not specified)
+\* (values >= 1e100 are printed as inf)
+RealOK(k, x) == InRangeReal(k, x) \/ (x = "inf" /\ BRLeq(E100, Bound(Table.real[k].upper))) \/ (x = "-inf" /\ BRLeq(Bound(Table.real[k].lower), BRNeg(E100)))
+TVFuzzLoad == /\ Ev.a = "fuzzload"
+              /\ LET v == ValsOf(Ev.vals) IN
+                 Step(Fail("Shape", Len(v.b) = NB /\ Len(v.i) = NI /\ Len(v.r) = NRL)
+                      \cup Fail("IntInRangeAfterLoad", \A k \in 1..NI : InRangeInt(k, v.i[k]))
+                      \cup Fail("RealInRangeAfterLoad", \A k \in 1..NRL : RealOK(k, v.r[k]))
+                      \cup Fail("UnmutatedFileAccepted", Ev.mutation = "none" => Ev.ret)
+                      \cup LPFails \cup SenseFails(v), v)
 TVResetSettings == /\ Ev.a = "reset"
                    /\ LET verb == CHOOSE k \in 1..NI : Table.int[k].name = "verbosity"
                           v == [Defaults EXCEPT !.i[verb] = "0"] IN
@@ -67,7 +78,7 @@ TVCopySettings == /\ Ev.a = "copySettings"
                           \cup ValsFails(val, ValsOf(Ev.vals)) \cup LPFails, val)
 
 Init == val = Defaults /\ lp = "" /\ l = 1
-Next == l <= Len(Tr) /\ (TVReset \/ TVCreate \/ TVSet \/ TVParse \/ TVSaveLoad \/ TVResetSettings \/ TVCopySettings)
+Next == l <= Len(Tr) /\ (TVReset \/ TVCreate \/ TVSet \/ TVParse \/ TVSaveLoad \/ TVFuzzLoad \/ TVResetSettings \/ TVCopySettings)
 Spec == Init /\ [][Next]_vars
 Accepted == TLCGet("stats").diameter - 1 = Len(Tr)
 Report == IF Accepted THEN PrintT(<<"ACCEPTED", Len(Tr)>>) ELSE PrintT(<<"REJECTED", TLCGet("stats").diameter, Len(Tr)>>) /\ FALSE
